@@ -32,7 +32,7 @@ structure Leaf (P : KState → Prop) : Prop where
   release : ∀ (s : KState) (k : Key) (n : Node), s.find? k = some n → n.holding ≠ 0 → P s →
     P (s.modify k fun n => { n with holding := n.holding - 1 })
   recycled : ∀ (s : KState) (k : Key) (need : Need) (shell : Bool), P s →
-    P (s.modify k fun n => { n with need := need, shell := shell, holding := 0 })
+    P (s.modify k fun n => { n with need := need, shell := shell })
   /-- an edge out of a file (into a step) -/
   addDep : ∀ (s : KState) (src snk : Key), s.hasDep src snk = false → depKindOk src.kind snk.kind = true →
     src.kind = .file → P s → P { s with deps := s.deps ++ [({ src := src, snk := snk } : Dep)] }
